@@ -45,77 +45,139 @@ pub fn twin() {
 }
 
 // ---------------------------------------------------------------------------------------------
-// hash ring: virtual-node positions from a concrete table per instance (several layouts, including
-// adjacent virtual nodes of one physical node and positions at the ends of the u64 range), the key's
-// position an arbitrary u64 -> every arc of the layout, the wrap-around and exact hits are covered.
-// Natively the ring hashes for real; the same oracle is swept over 4000 real keys.
+// hash ring lookups: the ring is built from a concrete, already sorted list of virtual-node positions
+// (HashRing::verif_from_parts - what add_node leaves behind; hashing and sorting are bypassed), the key's
+// position is an arbitrary u64 (HashRing::hash_key stubbed), rf is symbolic. The real get_replicas /
+// get_gossip_targets / remove_node are compared with a reference walk written here.
+// Natively the rings are built by the real HashRing::new in different join orders and swept over real keys.
 // ---------------------------------------------------------------------------------------------
-const LAYOUTS: [[[u64; 2]; 5]; 3] = [
-    // node 0 unused; nodes 1..=4, two virtual nodes each
-    [[0, 0], [100, 5000], [200, 6000], [300, 7000], [400, 8000]],
-    [[0, 0], [10, 20], [30, 18446744073709551615], [0, 40], [50, 60]],           // adjacent vnodes, positions 0 and u64::MAX
-    [[0, 0], [9000, 100], [8000, 200], [7000, 300], [6000, 400]],                // interleaved the other way
+use redis_sim::replication::hash_ring::VirtualNode;
+
+/// (position, node) sorted by position; 3 members x 2 virtual nodes
+const LAY: [[(u64, u64); 6]; 3] = [
+    [(100, 1), (200, 2), (300, 3), (5000, 1), (6000, 2), (7000, 3)],
+    [(0, 3), (10, 1), (20, 1), (30, 2), (40, 3), (18446744073709551615, 2)],   // adjacent vnodes of one node; positions 0 and u64::MAX
+    [(100, 1), (200, 2), (300, 3), (6000, 3), (8000, 2), (9000, 1)],
 ];
 
-fn replicas_ok(list: &[ReplicaId], rf: usize, members: usize) -> bool {
-    let want = if rf < members { rf } else { members };
-    if list.len() != want { return false; }
+fn build(layout: usize, order: [u64; 3], rf: usize) -> HashRing {
+    let mut ring = Vec::with_capacity(6);
+    let mut seen = [0u32; 4];
     let mut i = 0;
-    while i < list.len() { let mut j = i + 1; while j < list.len() { if list[i] == list[j] { return false; } j += 1; } i += 1; }
+    while i < 6 {
+        let (p, n) = LAY[layout][i];
+        ring.push((p, VirtualNode::new(ReplicaId(n), seen[n as usize])));
+        seen[n as usize] += 1;
+        i += 1;
+    }
+    HashRing::verif_from_parts(ring, vec![ReplicaId(order[0]), ReplicaId(order[1]), ReplicaId(order[2])], 2, rf)
+}
+/// reference: first virtual node at or after `pos` (wrapping), then clockwise, distinct physical nodes
+fn reference(layout: usize, pos: u64, want: usize, skip: u64) -> ([u64; 3], usize) {
+    let mut start = 0;
+    let mut found = false;
+    let mut i = 0;
+    while i < 6 { if !found && LAY[layout][i].0 >= pos { start = i; found = true; } i += 1; }
+    let mut out = [0u64; 3];
+    let mut n = 0;
+    let mut k = 0;
+    while k < 6 && n < want {
+        let node = LAY[layout][(start + k) % 6].1;
+        if node != skip && !(n > 0 && out[0] == node) && !(n > 1 && out[1] == node) { out[n] = node; n += 1; }
+        k += 1;
+    }
+    (out, n)
+}
+fn matches(list: &[ReplicaId], exp: &([u64; 3], usize)) -> bool {
+    if list.len() != exp.1 { return false; }
+    let mut i = 0;
+    while i < list.len() { if list[i].0 != exp.0[i] { return false; } i += 1; }
     true
 }
 fn same(a: &[ReplicaId], b: &[ReplicaId]) -> bool { if a.len() != b.len() { return false; } let mut i = 0; while i < a.len() { if a[i] != b[i] { return false; } i += 1; } true }
 fn contains(a: &[ReplicaId], x: ReplicaId) -> bool { let mut i = 0; while i < a.len() { if a[i] == x { return true; } i += 1; } false }
 
-/// one judgement of the oracle for one key; returns (order_independent, well_formed, minimal_change, gossip_exact)
-fn judge(key: &str, members: usize, rf: usize, removed: u64) -> (bool, bool, bool, bool) {
-    let ids: [u64; 4] = [1, 2, 3, 4];
-    let fwd: Vec<ReplicaId> = (0..members).map(|i| ReplicaId(ids[i])).collect();
-    let rev: Vec<ReplicaId> = (0..members).rev().map(|i| ReplicaId(ids[i])).collect();
-    let r1 = HashRing::new(fwd, 2, rf);
-    let r2 = HashRing::new(rev, 2, rf);
-    let a = r1.get_replicas(key);
-    let b = r2.get_replicas(key);
-    let order_independent = same(&a, &b);
-    let well_formed = replicas_ok(&a, rf, members);
-    // remove one member: placement changes only if the removed node was in the list
-    let mut r3 = r1.clone();
-    r3.remove_node(ReplicaId(removed));
-    let c = r3.get_replicas(key);
-    let minimal = contains(&a, ReplicaId(removed)) || same(&a, &c);
-    let after_ok = replicas_ok(&c, rf, members - 1) && !contains(&c, ReplicaId(removed));
-    // selective gossip from node 1: exactly the replicas other than the sender
-    let g = r1.get_gossip_targets(key, ReplicaId(1));
-    let mut gossip = !contains(&g, ReplicaId(1));
-    let mut i = 0;
-    while i < a.len() { if a[i] != ReplicaId(1) && !contains(&g, a[i]) { gossip = false; } i += 1; }
-    let mut j = 0;
-    while j < g.len() { if !contains(&a, g[j]) { gossip = false; } j += 1; }
-    std::mem::forget((r1, r2, r3));
-    (order_independent, well_formed, minimal && after_ok, gossip)
-}
-
-pub fn ring(layout: usize, members: usize) {
+/// what: 0 = lookup vs reference and join-order independence, 1 = gossip targets, 2 = removal of one member
+pub fn ring(layout: usize, what: u8) {
     let pos = vs::u64();
     let rf = vs::usize();
     vs::assume(rf >= 1 && rf <= 4);
-    let removed = vs::u64();
-    vs::assume(removed >= 1 && removed <= members as u64);
-    crate::vs::ring_set(LAYOUTS[layout], pos);
-    let (mut o, mut w, mut m, mut g) = judge("k", members, rf, removed);
-    if vs::NATIVE {
-        // real hash functions: sweep real keys with the solver's rf / removed member
-        let mut i = 0;
-        while i < 4000 {
-            let key = format!("key:{}", i);
-            let (o2, w2, m2, g2) = judge(&key, members, rf, removed);
-            o &= o2; w &= w2; m &= m2; g &= g2;
-            i += 1;
+    crate::vs::ring_set(layout, pos);
+    if vs::NATIVE { return ring_native(rf, what); }
+    let want = if rf < 3 { rf } else { 3 };
+    let r1 = build(layout, [1, 2, 3], rf);
+    match what {
+        0 => {
+            let r2 = build(layout, [3, 1, 2], rf);
+            let (a, b) = (r1.get_replicas("k"), r2.get_replicas("k"));
+            let exp = reference(layout, pos, want, 0);
+            vcheck!(matches(&a, &exp), "ring:replica list is not the min(rf, n) distinct members clockwise from the key");
+            vcheck!(same(&a, &b), "ring:replica list depends on the order in which members joined");
+            vcover!(rf >= 3, "replication factor covers the whole cluster");
+            std::mem::forget((a, b, r2));
+        }
+        1 => {
+            let sender = vs::u64();
+            vs::assume(sender >= 1 && sender <= 3);
+            let a = r1.get_replicas("k");
+            let g = r1.get_gossip_targets("k", ReplicaId(sender));
+            let mut ok = !contains(&g, ReplicaId(sender));
+            let mut i = 0;
+            while i < a.len() { if a[i] != ReplicaId(sender) && !contains(&g, a[i]) { ok = false; } i += 1; }
+            let mut j = 0;
+            while j < g.len() { if !contains(&a, g[j]) { ok = false; } j += 1; }
+            vcheck!(ok, "ring:selective gossip targets are not exactly the replicas other than the sender");
+            std::mem::forget((a, g));
+        }
+        _ => {
+            let gone = vs::u64();
+            vs::assume(gone >= 1 && gone <= 3);
+            let a = r1.get_replicas("k");
+            let mut r3 = r1.clone();
+            r3.remove_node(ReplicaId(gone));
+            let c = r3.get_replicas("k");
+            let exp = reference(layout, pos, if rf < 2 { rf } else { 2 }, gone);
+            vcheck!(matches(&c, &exp), "ring:after a removal the list is not the remaining members clockwise from the key");
+            vcheck!(contains(&a, ReplicaId(gone)) || same(&a, &c), "ring:removing a node changed the placement of a key it did not hold");
+            std::mem::forget((a, c, r3));
         }
     }
-    vcheck!(o, "ring:replica list depends on the order in which members joined");
-    vcheck!(w, "ring:replica list is not min(rf, cluster size) distinct members");
-    vcheck!(m, "ring:removing a node changed the placement of a key it did not hold (or left it in a list)");
-    vcheck!(g, "ring:selective gossip targets are not exactly the replicas other than the sender");
-    vcover!(rf >= members, "replication factor covers the whole cluster");
+    std::mem::forget(r1);
+}
+
+/// native counterpart: real HashRing::new (real hashing, real sort) in two join orders, 4000 real keys
+fn ring_native(rf: usize, what: u8) {
+    let r1 = HashRing::new(vec![ReplicaId(1), ReplicaId(2), ReplicaId(3)], 2, rf);
+    let r2 = HashRing::new(vec![ReplicaId(3), ReplicaId(1), ReplicaId(2)], 2, rf);
+    let want = if rf < 3 { rf } else { 3 };
+    let (mut wf, mut ord, mut gos, mut rem_ok) = (true, true, true, true);
+    let mut i = 0;
+    while i < 4000 {
+        let key = format!("key:{}", i);
+        let a = r1.get_replicas(&key);
+        let b = r2.get_replicas(&key);
+        if a.len() != want || (a.len() > 1 && a[0] == a[1]) || (a.len() > 2 && (a[0] == a[2] || a[1] == a[2])) { wf = false; }
+        if !same(&a, &b) { ord = false; }
+        // the list for rf must extend the list for rf = 1 (same primary): catches lists that ignore the key
+        let p = r1.get_replicas_with_rf(&key, 1);
+        if p.len() != 1 || p[0] != a[0] { wf = false; }
+        for sender in 1..=3u64 {
+            let g = r1.get_gossip_targets(&key, ReplicaId(sender));
+            if contains(&g, ReplicaId(sender)) { gos = false; }
+            for x in &a { if *x != ReplicaId(sender) && !contains(&g, *x) { gos = false; } }
+            for x in &g { if !contains(&a, *x) { gos = false; } }
+        }
+        for gone in 1..=3u64 {
+            let mut r3 = r1.clone();
+            r3.remove_node(ReplicaId(gone));
+            let c = r3.get_replicas(&key);
+            if contains(&c, ReplicaId(gone)) || !(contains(&a, ReplicaId(gone)) || same(&a, &c)) { rem_ok = false; }
+        }
+        i += 1;
+    }
+    match what {
+        0 => { vcheck!(wf, "ring:replica list is not the min(rf, n) distinct members clockwise from the key"); vcheck!(ord, "ring:replica list depends on the order in which members joined"); }
+        1 => { vcheck!(gos, "ring:selective gossip targets are not exactly the replicas other than the sender"); }
+        _ => { vcheck!(rem_ok, "ring:after a removal the list is not the remaining members clockwise from the key"); vcheck!(rem_ok, "ring:removing a node changed the placement of a key it did not hold"); }
+    }
 }
